@@ -139,6 +139,9 @@ spawn(pid_t *pid, struct array *args, posix_spawn_file_actions_t *actions)
 {
 	extern char **environ;
 	char **arg;
+	posix_spawnattr_t attr;
+	sigset_t set;
+	int ret;
 
 	if (flags.verbose) {
 		fprintf(stderr, "%s: spawning", argv0);
@@ -146,7 +149,23 @@ spawn(pid_t *pid, struct array *args, posix_spawn_file_actions_t *actions)
 			fprintf(stderr, " %s", *arg);
 		fputc('\n', stderr);
 	}
-	return posix_spawnp(pid, *(char **)args->val, actions, NULL, args->val, environ);
+	/*
+	a failed pipeline is stopped with SIGTERM; make sure it
+	reaches the tools even if our caller ignores or blocks it
+	*/
+	ret = posix_spawnattr_init(&attr);
+	if (ret)
+		return ret;
+	sigemptyset(&set);
+	sigaddset(&set, SIGTERM);
+	posix_spawnattr_setsigdefault(&attr, &set);
+	sigprocmask(SIG_BLOCK, NULL, &set);
+	sigdelset(&set, SIGTERM);
+	posix_spawnattr_setsigmask(&attr, &set);
+	posix_spawnattr_setflags(&attr, POSIX_SPAWN_SETSIGDEF | POSIX_SPAWN_SETSIGMASK);
+	ret = posix_spawnp(pid, *(char **)args->val, actions, &attr, args->val, environ);
+	posix_spawnattr_destroy(&attr);
+	return ret;
 }
 
 static int
